@@ -363,3 +363,17 @@ Definition probe (s : shared) : option (list event) :=
   | Some (_, evs, _) => Some (filter is_acq_ret (map snd evs))
   | None => None
   end.
+
+(* ---------- specification vocabulary (used by the theorems and mirrored by the check's oracle) ---------- *)
+Definition is_writer (m : mode) : bool := match m with MExcl | MAppend | MBusy => true | _ => false end.
+Definition is_sharer (m : mode) : bool := match m with MShared | MHeaders => true | _ => false end.
+
+(* may two different processes hold a and b at the same time? *)
+Definition compat (a b : mode) : bool :=
+  match a, b with
+  | MIdle, _ | _, MIdle => true
+  | MExcl, _ | _, MExcl => false                       (* exclusive excludes everybody *)
+  | MHeaders, MHeaders => false                        (* one header updater *)
+  | (MAppend | MBusy), (MAppend | MBusy) => false      (* one writer *)
+  | _, _ => true                                       (* sharers with sharers; sharers with an appending / knowingly non-exclusive writer *)
+  end.
